@@ -516,6 +516,30 @@ func genC29(g *gen) {
 		half = strings.Contains(normSleepcmd(src(fd.Body)), "time.NewTicker(f.cfg.SeenCacheTTL / 2)")
 	}
 	g.line("Definition gen_c29_cleanup_every_half_ttl : bool := %s.", coqBool(half))
+	// the issuing paths record the issuer's own command before anything is sent
+	for _, k := range []string{"Sleep", "Wake"} {
+		ok := false
+		if fd := findFunc(ff, "Flooder", "Flood"+k+"Command"); fd != nil && fd.Body != nil {
+			pm := token.NoPos
+			for _, c := range callsIn(fd.Body) {
+				if callName(c) == "f.markSleepCmdSeen" && len(c.Args) == 3 &&
+					normSleepcmd(src(c.Args[0])) == "cmd.OriginAgent" && normSleepcmd(src(c.Args[1])) == "cmd.CommandID" && normSleepcmd(src(c.Args[2])) == "f.localID" {
+					pm = c.Pos()
+					break
+				}
+			}
+			firstSend := token.NoPos
+			for _, c := range callsIn(fd.Body) {
+				n := callName(c)
+				if n == "f.broadcastFrame" || n == "f.floodFrame" || n == "f.sender.SendToPeer" || n == "f.flood"+k+"Command" {
+					firstSend = c.Pos()
+					break
+				}
+			}
+			ok = pm != token.NoPos && firstSend != token.NoPos && pm < firstSend
+		}
+		g.line("Definition gen_c29_flood_%s_marks_own_command_before_sending : bool := %s.", strings.ToLower(k), coqBool(ok))
+	}
 	// order in the handlers (shared with C28)
 	for _, k := range []string{"Sleep", "Wake"} {
 		fd := findFunc(ff, "Flooder", "Handle"+k+"Command")
@@ -690,4 +714,54 @@ func genC33(g *gen) {
 	pw := body("WindowCalculator", "PreviousWindow")
 	g.line("Definition gen_c33_previous_switches_before_start : bool := %s.", coqBool(
 		strings.Contains(pw, "if now.Before(windowStart) { cycleStart = cycleStart.Add(-w.cfg.CycleLength)")))
+	// the configuration path: sleep.NewManager
+	sf := parseFile("internal/sleep/sleep.go")
+	epochParsed, cycleIsPoll, wlGuard, tolGuard := false, false, false, false
+	if fd := findFunc(sf, "", "NewManager"); fd != nil && fd.Body != nil {
+		ast.Inspect(fd.Body, func(x ast.Node) bool {
+			switch n := x.(type) {
+			case *ast.IfStmt:
+				if n.Init != nil && normSleepcmd(src(n.Init)) == "epoch, err := time.Parse(time.RFC3339, cfg.DeterministicWindows.Epoch)" &&
+					normSleepcmd(src(n.Cond)) == "err == nil" && len(n.Body.List) == 1 && normSleepcmd(src(n.Body.List[0])) == "windowCfg.Epoch = epoch" {
+					epochParsed = true
+				}
+				if normSleepcmd(src(n.Cond)) == "cfg.DeterministicWindows.WindowLength > 0" && len(n.Body.List) == 1 &&
+					normSleepcmd(src(n.Body.List[0])) == "windowCfg.WindowLength = cfg.DeterministicWindows.WindowLength" {
+					wlGuard = true
+				}
+				if normSleepcmd(src(n.Cond)) == "cfg.DeterministicWindows.ClockTolerance > 0" && len(n.Body.List) == 1 &&
+					normSleepcmd(src(n.Body.List[0])) == "windowCfg.ClockTolerance = cfg.DeterministicWindows.ClockTolerance" {
+					tolGuard = true
+				}
+			case *ast.AssignStmt:
+				if normSleepcmd(src(n)) == "windowCfg.CycleLength = cfg.PollInterval" {
+					cycleIsPoll = true
+				}
+			}
+			return true
+		})
+	} else {
+		g.note("sleep.NewManager not found")
+	}
+	g.line("Definition gen_c33_manager_epoch_is_the_parsed_instant : bool := %s.", coqBool(epochParsed))
+	g.line("Definition gen_c33_manager_cycle_is_poll_interval : bool := %s.", coqBool(cycleIsPoll))
+	g.line("Definition gen_c33_manager_window_and_tolerance_when_positive : bool := %s.", coqBool(wlGuard && tolGuard))
+	env := map[string]int64{"time.Minute": 60e9, "time.Second": 1e9, "time.Hour": 3600e9, "time.Millisecond": 1e6}
+	defs := map[string]int64{"WindowLength": 0, "ClockTolerance": 0}
+	if fd := findFunc(wf, "", "DefaultWindowConfig"); fd != nil && fd.Body != nil {
+		ast.Inspect(fd.Body, func(x ast.Node) bool {
+			if kv, ok := x.(*ast.KeyValueExpr); ok {
+				if id, ok := kv.Key.(*ast.Ident); ok {
+					if _, want := defs[id.Name]; want {
+						if v, ok := durLit(kv.Value, env); ok {
+							defs[id.Name] = v
+						}
+					}
+				}
+			}
+			return true
+		})
+	}
+	g.line("Definition gen_c33_default_window_ns : Z := %d%%Z.", defs["WindowLength"])
+	g.line("Definition gen_c33_default_tolerance_ns : Z := %d%%Z.", defs["ClockTolerance"])
 }
